@@ -1,9 +1,372 @@
 package univ
 
-import "verif/mc/spec"
+import (
+	"strings"
+
+	"verif/mc/spec"
+)
+
+// EchoService builds a service with one POST route per message: the RPC takes and returns the message.
+func EchoService(name string, msgs ...string) *spec.Service {
+	s := spec.Svc(name, "/echo")
+	for _, m := range msgs {
+		id := strings.ReplaceAll(m, ".", "_")
+		s.Methods = append(s.Methods, spec.RPC("Echo"+id, m, m, "POST", "/"+strings.ToLower(id)))
+	}
+	return s
+}
+
+func withCell(s *spec.Spec, cell string, tags ...string) *spec.Spec {
+	s.Cell = cell
+	s.Tags = append(s.Tags, tags...)
+	return s
+}
+
+var apiKey = &spec.Header{Name: "X-API-Key", Description: "API key for authentication", Type: "string", Required: true, Format: "uuid"}
+var requestID = &spec.Header{Name: "X-Request-ID", Type: "string", Format: "uuid", Required: true}
+
+// CoreRest mirrors testdata/proto/http_verbs_comprehensive.proto.
+func CoreRest() *spec.Spec {
+	status := spec.E("ResourceStatus", "RESOURCE_STATUS_UNSPECIFIED", "RESOURCE_STATUS_ACTIVE", "RESOURCE_STATUS_ARCHIVED")
+	resource := spec.M("Resource", spec.F("id", "string"), spec.F("name", "string"), spec.F("description", "string"),
+		spec.F("metadata", "string").Map(), spec.En("status", "ResourceStatus"), spec.F("created_at", "int64"), spec.F("updated_at", "int64"))
+	f := &spec.File{
+		Enums: []*spec.Enum{status},
+		Messages: []*spec.Message{
+			spec.M("ListResourcesRequest",
+				spec.F("page", "int32").Q("page"), spec.F("page_size", "int32").Q("page_size"), spec.F("filter", "string").Q("filter"),
+				spec.F("include_deleted", "bool").Q("include_deleted"), spec.F("since_timestamp", "int64").Q("since_timestamp"),
+				spec.F("max_id", "uint64").Q("max_id"), spec.F("min_score", "float").Q("min_score"), spec.F("max_score", "double").Q("max_score")),
+			spec.M("ListResourcesResponse", spec.Msg("resources", "Resource").Rep(), spec.F("total_count", "int32"), spec.F("page", "int32")),
+			spec.M("GetResourceRequest", spec.F("resource_id", "string")),
+			spec.M("GetNestedResourceRequest", spec.F("org_id", "string"), spec.F("team_id", "string"), spec.F("resource_id", "string")),
+			spec.M("CreateResourceRequest", spec.F("name", "string"), spec.F("description", "string"), spec.F("metadata", "string").Map()),
+			spec.M("UpdateResourceRequest", spec.F("resource_id", "string"), spec.F("name", "string"), spec.F("description", "string"), spec.F("metadata", "string").Map()),
+			spec.M("PatchResourceRequest", spec.F("resource_id", "string"), spec.F("name", "string"), spec.F("description", "string")),
+			spec.M("DeleteResourceRequest", spec.F("resource_id", "string")),
+			spec.M("DeleteResourceResponse", spec.F("success", "bool")),
+			spec.M("DefaultPostRequest", spec.F("action", "string")),
+			spec.M("DefaultPostResponse", spec.F("result", "string")),
+			spec.M("SearchResourcesRequest", spec.F("query", "string").Q("q"), spec.F("limit", "int32").Q("limit")),
+			resource,
+		},
+		Services: []*spec.Service{
+			spec.Svc("RESTfulAPIService", "/api/v1",
+				spec.RPC("ListResources", "ListResourcesRequest", "ListResourcesResponse", "GET", "/resources"),
+				spec.RPC("GetResource", "GetResourceRequest", "Resource", "GET", "/resources/{resource_id}"),
+				spec.RPC("GetNestedResource", "GetNestedResourceRequest", "Resource", "GET", "/orgs/{org_id}/teams/{team_id}/resources/{resource_id}"),
+				spec.RPC("CreateResource", "CreateResourceRequest", "Resource", "POST", "/resources").H(requestID),
+				spec.RPC("UpdateResource", "UpdateResourceRequest", "Resource", "PUT", "/resources/{resource_id}"),
+				spec.RPC("PatchResource", "PatchResourceRequest", "Resource", "PATCH", "/resources/{resource_id}"),
+				spec.RPC("DeleteResource", "DeleteResourceRequest", "DeleteResourceResponse", "DELETE", "/resources/{resource_id}"),
+				spec.RPC("DefaultPostMethod", "DefaultPostRequest", "DefaultPostResponse", "", "/legacy/action"),
+				spec.RPC("SearchResources", "SearchResourcesRequest", "ListResourcesResponse", "GET", "/resources/search"),
+			).H(apiKey),
+		},
+	}
+	return withCell(spec.One("core_rest", f), "core/unit=rest", "core", "valid")
+}
+
+// CoreDefaultRoute: a service without any HTTP annotation (backward compatible default routes).
+func CoreDefaultRoute() *spec.Spec {
+	f := &spec.File{
+		Messages: []*spec.Message{spec.M("LegacyRequest", spec.F("data", "string")), spec.M("LegacyResponse", spec.F("result", "string"))},
+		Services: []*spec.Service{spec.SvcNoBase("BackwardCompatService", spec.RPCDefault("LegacyAction", "LegacyRequest", "LegacyResponse"))},
+	}
+	return withCell(spec.One("core_default", f), "core/unit=default_route", "core", "valid")
+}
+
+// CoreQuery mirrors testdata/proto/query_params.proto (path + query on GET, query on other verbs).
+func CoreQuery() *spec.Spec {
+	f := &spec.File{
+		Messages: []*spec.Message{
+			spec.M("SearchRequest", spec.F("q", "string").QReq("q"), spec.F("page", "int32").Q("page"), spec.F("limit", "int32").Q("limit"),
+				spec.F("active", "bool").Q("active"), spec.F("sort_by", "string").Q("sort")),
+			spec.M("SearchResponse", spec.F("results", "string").Rep(), spec.F("total", "int32")),
+			spec.M("GetItemRequest", spec.F("item_id", "string"), spec.F("include_details", "bool").Q("details"), spec.F("version", "int64").Q("version")),
+			spec.M("Item", spec.F("id", "string"), spec.F("name", "string"), spec.F("version", "int64")),
+			spec.M("DeleteItemRequest", spec.F("item_id", "string"), spec.F("force", "bool").Q("force")),
+			spec.M("DeleteItemResponse", spec.F("deleted", "bool")),
+			spec.M("UpdateItemRequest", spec.F("item_id", "string"), spec.F("name", "string"), spec.F("notify", "bool").Q("notify")),
+		},
+		Services: []*spec.Service{spec.Svc("QueryService", "/api/v1",
+			spec.RPC("Search", "SearchRequest", "SearchResponse", "GET", "/search"),
+			spec.RPC("GetItem", "GetItemRequest", "Item", "GET", "/items/{item_id}"),
+			spec.RPC("DeleteItem", "DeleteItemRequest", "DeleteItemResponse", "DELETE", "/items/{item_id}"),
+			spec.RPC("UpdateItem", "UpdateItemRequest", "Item", "PUT", "/items/{item_id}"),
+		)},
+	}
+	return withCell(spec.One("core_query", f), "core/unit=query", "core", "valid")
+}
+
+// CorePathKinds: path variables of the scalar kinds the documentation lists.
+func CorePathKinds() *spec.Spec {
+	f := &spec.File{
+		Messages: []*spec.Message{
+			spec.M("Out", spec.F("ok", "bool")),
+			spec.M("ByInt32", spec.F("id", "int32")), spec.M("ByInt64", spec.F("id", "int64")),
+			spec.M("ByUint32", spec.F("id", "uint32")), spec.M("ByUint64", spec.F("id", "uint64")),
+			spec.M("ByBool", spec.F("flag", "bool")), spec.M("ByDouble", spec.F("x", "double")), spec.M("ByFloat", spec.F("x", "float")),
+			spec.M("ByTwo", spec.F("org_id", "string"), spec.F("num", "int32"), spec.F("note", "string")),
+		},
+		Services: []*spec.Service{spec.Svc("PathKindService", "/pk",
+			spec.RPC("GetInt32", "ByInt32", "Out", "GET", "/i32/{id}"),
+			spec.RPC("GetInt64", "ByInt64", "Out", "GET", "/i64/{id}"),
+			spec.RPC("GetUint32", "ByUint32", "Out", "GET", "/u32/{id}"),
+			spec.RPC("GetUint64", "ByUint64", "Out", "GET", "/u64/{id}"),
+			spec.RPC("GetBool", "ByBool", "Out", "GET", "/b/{flag}"),
+			spec.RPC("GetDouble", "ByDouble", "Out", "GET", "/d/{x}"),
+			spec.RPC("GetFloat", "ByFloat", "Out", "GET", "/f/{x}"),
+			spec.RPC("PutTwo", "ByTwo", "Out", "PUT", "/two/{org_id}/n/{num}"),
+			spec.RPC("PostTwo", "ByTwo", "Out", "POST", "/two/{org_id}/n/{num}"),
+			spec.RPC("PatchTwo", "ByTwo", "Out", "PATCH", "/two/{org_id}/n/{num}"),
+		)},
+	}
+	return withCell(spec.One("core_pathkinds", f), "core/unit=path_kinds", "core", "valid")
+}
+
+func CoreInt64() *spec.Spec {
+	f := &spec.File{
+		Messages: []*spec.Message{
+			spec.M("Int64EncodingTest",
+				spec.F("default_int64", "int64"), spec.F("string_int64", "int64").I64(spec.EncString), spec.F("number_int64", "int64").I64(spec.EncNumber),
+				spec.F("number_uint64", "uint64").I64(spec.EncNumber), spec.F("number_sint64", "sint64").I64(spec.EncNumber),
+				spec.F("number_fixed64", "fixed64").I64(spec.EncNumber), spec.F("number_sfixed64", "sfixed64").I64(spec.EncNumber),
+				spec.F("repeated_number", "int64").Rep().I64(spec.EncNumber), spec.F("repeated_default", "int64").Rep(), spec.F("name", "string")),
+		},
+		Services: []*spec.Service{EchoService("Int64Service", "Int64EncodingTest")},
+	}
+	return withCell(spec.One("core_int64", f), "core/unit=int64_encoding", "core", "valid", "codec")
+}
+
+func CoreEnum() *spec.Spec {
+	status := &spec.Enum{Name: "Status", Values: []*spec.EnumValue{
+		{Name: "STATUS_UNSPECIFIED", Num: 0, Custom: spec.Str("unknown")}, {Name: "STATUS_ACTIVE", Num: 1, Custom: spec.Str("active")},
+		{Name: "STATUS_INACTIVE", Num: 2, Custom: spec.Str("inactive")}}}
+	prio := spec.E("Priority", "PRIORITY_LOW", "PRIORITY_MEDIUM", "PRIORITY_HIGH")
+	partial := &spec.Enum{Name: "Partial", Values: []*spec.EnumValue{
+		{Name: "PARTIAL_UNSPECIFIED", Num: 0}, {Name: "PARTIAL_A", Num: 1, Custom: spec.Str("a")}, {Name: "PARTIAL_B", Num: 2}}}
+	f := &spec.File{
+		Enums: []*spec.Enum{status, prio, partial},
+		Messages: []*spec.Message{
+			spec.M("EnumEncodingTest", spec.En("status", "Status"), spec.En("priority", "Priority"),
+				spec.En("priority_number", "Priority").EEnc(spec.EncNumber), spec.En("priority_string", "Priority").EEnc(spec.EncString),
+				spec.En("statuses", "Status").Rep(), spec.En("partial", "Partial"), spec.F("name", "string")),
+		},
+		Services: []*spec.Service{EchoService("EnumService", "EnumEncodingTest")},
+	}
+	return withCell(spec.One("core_enum", f), "core/unit=enum_encoding", "core", "valid", "codec")
+}
+
+func CoreNullable() *spec.Spec {
+	f := &spec.File{
+		Messages: []*spec.Message{
+			spec.M("User", spec.F("id", "string"), spec.F("middle_name", "string").Opt().Null(), spec.F("nickname", "string").Opt(),
+				spec.F("age", "int32").Opt().Null(), spec.F("is_verified", "bool").Opt().Null(), spec.F("score", "double").Opt().Null(),
+				spec.F("big", "int64").Opt().Null()),
+		},
+		Services: []*spec.Service{EchoService("NullableService", "User")},
+	}
+	return withCell(spec.One("core_nullable", f), "core/unit=nullable", "core", "valid", "codec")
+}
+
+func CoreEmpty() *spec.Spec {
+	f := &spec.File{
+		Messages: []*spec.Message{
+			spec.M("Metadata", spec.F("key", "string"), spec.F("value", "string")),
+			spec.M("Settings", spec.F("enabled", "bool"), spec.F("timeout", "int32")),
+			spec.M("Response", spec.F("id", "string"),
+				spec.Msg("metadata_preserve", "Metadata").Empty(spec.EmptyPreserve), spec.Msg("metadata_null", "Metadata").Empty(spec.EmptyNull),
+				spec.Msg("metadata_omit", "Metadata").Empty(spec.EmptyOmit), spec.Msg("metadata_default", "Metadata"),
+				spec.Msg("settings", "Settings").Empty(spec.EmptyNull)),
+		},
+		Services: []*spec.Service{EchoService("EmptyBehaviorService", "Response")},
+	}
+	return withCell(spec.One("core_empty", f), "core/unit=empty_behavior", "core", "valid", "codec")
+}
+
+func CoreTimestamp() *spec.Spec {
+	f := &spec.File{
+		Messages: []*spec.Message{
+			spec.M("TimestampFormatTest", spec.Ts("default_ts"), spec.Ts("rfc3339_ts").TsF(spec.TsRFC3339), spec.Ts("unix_seconds_ts").TsF(spec.TsUnixSec),
+				spec.Ts("unix_millis_ts").TsF(spec.TsUnixMs), spec.Ts("date_ts").TsF(spec.TsDate), spec.F("name", "string")),
+		},
+		Services: []*spec.Service{EchoService("TimestampService", "TimestampFormatTest")},
+	}
+	return withCell(spec.One("core_ts", f), "core/unit=timestamp_format", "core", "valid", "codec")
+}
+
+func CoreBytes() *spec.Spec {
+	f := &spec.File{
+		Messages: []*spec.Message{
+			spec.M("BytesEncodingTest", spec.F("default_data", "bytes"), spec.F("base64_data", "bytes").BEnc(spec.BytesB64),
+				spec.F("base64_raw_data", "bytes").BEnc(spec.BytesB64Raw), spec.F("base64url_data", "bytes").BEnc(spec.BytesB64URL),
+				spec.F("base64url_raw_data", "bytes").BEnc(spec.BytesB64URLRaw), spec.F("hex_data", "bytes").BEnc(spec.BytesHex), spec.F("name", "string")),
+		},
+		Services: []*spec.Service{EchoService("BytesService", "BytesEncodingTest")},
+	}
+	return withCell(spec.One("core_bytes", f), "core/unit=bytes_encoding", "core", "valid", "codec")
+}
+
+func CoreFlatten() *spec.Spec {
+	f := &spec.File{
+		Messages: []*spec.Message{
+			spec.M("Address", spec.F("street", "string"), spec.F("city", "string"), spec.F("zip", "string")),
+			spec.M("ContactInfo", spec.F("email", "string"), spec.F("phone", "string")),
+			spec.M("SimpleFlatten", spec.F("id", "string"), spec.Msg("address", "Address").Flat()),
+			spec.M("DualFlatten", spec.F("id", "string"), spec.Msg("billing", "Address").FlatP("billing_"), spec.Msg("shipping", "Address").FlatP("shipping_")),
+			spec.M("MixedFlatten", spec.F("id", "string"), spec.Msg("address", "Address").Flat(), spec.Msg("contact", "ContactInfo"), spec.F("notes", "string")),
+			spec.M("PlainNested", spec.F("id", "string"), spec.Msg("address", "Address")),
+		},
+		Services: []*spec.Service{EchoService("FlattenService", "SimpleFlatten", "DualFlatten", "MixedFlatten", "PlainNested")},
+	}
+	return withCell(spec.One("core_flatten", f), "core/unit=flatten", "core", "valid", "codec")
+}
+
+func CoreOneof() *spec.Spec {
+	f := &spec.File{
+		Messages: []*spec.Message{
+			spec.M("TextContent", spec.F("body", "string")),
+			spec.M("ImageContent", spec.F("url", "string"), spec.F("width", "int32"), spec.F("height", "int32")),
+			spec.M("VideoContent", spec.F("url", "string"), spec.F("duration", "int32")),
+			spec.M("FlattenedEvent", spec.F("id", "string"), spec.Msg("text", "TextContent").In("content"), spec.Msg("image", "ImageContent").In("content").OV("img")).
+				WithOneof(&spec.Oneof{Name: "content", Config: true, Disc: "type", Flatten: true}),
+			spec.M("NestedEvent", spec.F("id", "string"), spec.Msg("text", "TextContent").In("content"), spec.Msg("image", "ImageContent").In("content"),
+				spec.Msg("video", "VideoContent").In("content").OV("vid")).
+				WithOneof(&spec.Oneof{Name: "content", Config: true, Disc: "kind"}),
+			spec.M("PlainEvent", spec.F("id", "string"), spec.Msg("text", "TextContent").In("content"), spec.Msg("image", "ImageContent").In("content")).
+				WithOneof(&spec.Oneof{Name: "content"}),
+		},
+		Services: []*spec.Service{EchoService("OneofDiscriminatorService", "FlattenedEvent", "NestedEvent", "PlainEvent")},
+	}
+	return withCell(spec.One("core_oneof", f), "core/unit=oneof_discriminator", "core", "valid", "codec")
+}
+
+func CoreUnwrap() *spec.Spec {
+	f := &spec.File{
+		Messages: []*spec.Message{
+			spec.M("OptionBar", spec.F("symbol", "string"), spec.F("price", "double"), spec.F("volume", "int64"), spec.F("timestamp", "string")),
+			spec.M("OptionBarsList", spec.Msg("bars", "OptionBar").Rep().Unw()),
+			spec.M("GetOptionBarsResponse", spec.Msg("bars", "OptionBarsList").Map(), spec.F("next_page_token", "string")),
+			spec.M("GetOptionBarsRequest", spec.F("symbols", "string").Rep(), spec.F("start_date", "string"), spec.F("end_date", "string")),
+			spec.M("IntList", spec.F("values", "int32").Rep().Unw()),
+			spec.M("ScalarMapResponse", spec.Msg("data", "IntList").Map()),
+			spec.M("RegularWrapper", spec.Msg("items", "OptionBar").Rep()),
+			spec.M("MixedResponse", spec.Msg("unwrapped_bars", "OptionBarsList").Map(), spec.Msg("regular_bars", "RegularWrapper").Map(), spec.F("status", "string")),
+			spec.M("RootMapResponse", spec.Msg("people", "OptionBar").Map().Unw()),
+			spec.M("RootRepeatedResponse", spec.Msg("items", "OptionBar").Rep().Unw()),
+			spec.M("RootMapWithValueUnwrapResponse", spec.Msg("data", "OptionBarsList").Map().Unw()),
+			spec.M("ScalarRootMapResponse", spec.F("counts", "int32").Map().Unw()),
+			spec.M("ScalarRootRepeatedResponse", spec.F("names", "string").Rep().Unw()),
+			spec.M("RootMapScalarListResponse", spec.Msg("groups", "IntList").Map().Unw()),
+		},
+		Services: []*spec.Service{EchoService("UnwrapService", "GetOptionBarsResponse", "ScalarMapResponse", "MixedResponse", "RootMapResponse",
+			"RootRepeatedResponse", "RootMapWithValueUnwrapResponse", "ScalarRootMapResponse", "ScalarRootRepeatedResponse", "RootMapScalarListResponse", "OptionBarsList", "IntList")},
+	}
+	return withCell(spec.One("core_unwrap", f), "core/unit=unwrap", "core", "valid", "codec")
+}
+
+// CoreRules: buf.validate rules as used in the documentation (string length / email / uuid, int ranges).
+func CoreRules() *spec.Spec {
+	f := &spec.File{
+		Messages: []*spec.Message{
+			spec.M("Address", spec.F("city", "string").R(`string:{min_len:1}`), spec.F("zip", "string").R(`string:{pattern:"^[0-9]{5}$"}`)),
+			spec.M("CreateUserRequest",
+				spec.F("name", "string").R(`string:{min_len:2 max_len:10}`),
+				spec.F("email", "string").R(`string:{email:true}`),
+				spec.F("age", "int32").R(`int32:{gte:18 lte:120}`),
+				spec.F("id", "string").R(`string:{uuid:true}`),
+				spec.Msg("address", "Address"),
+				spec.Msg("previous", "Address").Rep(),
+				spec.Msg("by_label", "Address").Map(),
+				spec.F("tags", "string").Rep().R(`repeated:{min_items:0 max_items:3 items:{string:{min_len:1}}}`),
+				spec.F("role", "string").R(`string:{in:["admin","user"]}`),
+			),
+			spec.M("User", spec.F("id", "string"), spec.F("name", "string")),
+		},
+		Services: []*spec.Service{spec.Svc("UserService", "/api/v1", spec.RPC("CreateUser", "CreateUserRequest", "User", "POST", "/users"))},
+	}
+	return withCell(spec.One("core_rules", f), "core/unit=rules", "core", "valid")
+}
+
+// CoreMulti: several services in one file, sharing messages, with different headers.
+func CoreMulti() *spec.Spec {
+	f := &spec.File{
+		Messages: []*spec.Message{
+			spec.M("PingRequest", spec.F("id", "string"), spec.F("n", "int32").Q("n")),
+			spec.M("PingResponse", spec.F("id", "string"), spec.F("n", "int32")),
+			spec.M("PutRequest", spec.F("id", "string"), spec.F("payload", "string").R(`string:{min_len:1}`)),
+		},
+		Services: []*spec.Service{
+			spec.Svc("AlphaService", "/alpha",
+				spec.RPC("Ping", "PingRequest", "PingResponse", "GET", "/ping/{id}"),
+				spec.RPC("Put", "PutRequest", "PingResponse", "PUT", "/put/{id}").H(&spec.Header{Name: "X-Trace", Type: "integer", Required: true}),
+			).H(&spec.Header{Name: "X-Tenant", Type: "string", Required: true}),
+			spec.Svc("BetaService", "/beta",
+				spec.RPC("BetaPing", "PingRequest", "PingResponse", "GET", "/ping/{id}").H(&spec.Header{Name: "X-Beta", Type: "integer", Required: true}),
+				spec.RPC("BetaPut", "PutRequest", "PingResponse", "POST", "/put"),
+			),
+		},
+	}
+	return withCell(spec.One("core_multi", f), "core/unit=multi_service", "core", "valid")
+}
+
+// CoreErr: custom error messages (names ending in Error get an Error() method).
+func CoreErr() *spec.Spec {
+	f := &spec.File{
+		Messages: []*spec.Message{
+			spec.M("GetRequest", spec.F("id", "string")),
+			spec.M("GetResponse", spec.F("id", "string")),
+			spec.M("NotFoundError", spec.F("resource_type", "string"), spec.F("resource_id", "string"), spec.F("code", "int32"), spec.F("big", "int64"),
+				spec.F("details", "string").Rep(), spec.Msg("cause", "Cause")),
+			spec.M("Cause", spec.F("reason", "string")),
+		},
+		Services: []*spec.Service{spec.Svc("ErrService", "/err", spec.RPC("Get", "GetRequest", "GetResponse", "POST", "/get"))},
+	}
+	return withCell(spec.One("core_err", f), "core/unit=custom_error", "core", "valid")
+}
+
+// CoreHeaders: header types and formats on service and method level, with an override.
+func CoreHeaders() *spec.Spec {
+	f := &spec.File{
+		Messages: []*spec.Message{spec.M("Req", spec.F("name", "string")), spec.M("Resp", spec.F("name", "string"))},
+		Services: []*spec.Service{
+			spec.Svc("HeaderService", "/h",
+				spec.RPC("Plain", "Req", "Resp", "POST", "/plain"),
+				spec.RPC("Typed", "Req", "Resp", "POST", "/typed").H(
+					&spec.Header{Name: "X-Count", Type: "integer", Required: true},
+					&spec.Header{Name: "X-Ratio", Type: "number", Required: true},
+					&spec.Header{Name: "X-Flag", Type: "boolean", Required: true},
+					&spec.Header{Name: "X-List", Type: "array", Required: true}),
+				spec.RPC("Formats", "Req", "Resp", "POST", "/formats").H(
+					&spec.Header{Name: "X-Mail", Type: "string", Format: "email", Required: true},
+					&spec.Header{Name: "X-When", Type: "string", Format: "date-time", Required: true},
+					&spec.Header{Name: "X-Day", Type: "string", Format: "date", Required: true},
+					&spec.Header{Name: "X-Time", Type: "string", Format: "time", Required: true}),
+				spec.RPC("Optional", "Req", "Resp", "POST", "/optional").H(&spec.Header{Name: "X-Opt", Type: "integer", Required: false}),
+			).H(apiKey),
+		},
+	}
+	return withCell(spec.One("core_headers", f), "core/unit=headers", "core", "valid")
+}
+
+// CoreHdrOverride: a method-level header replacing the service-level header of the same name.
+func CoreHdrOverride() *spec.Spec {
+	f := &spec.File{
+		Messages: []*spec.Message{spec.M("Req", spec.F("name", "string")), spec.M("Resp", spec.F("name", "string"))},
+		Services: []*spec.Service{
+			spec.Svc("OverrideService", "/o",
+				spec.RPC("Plain", "Req", "Resp", "POST", "/plain"),
+				spec.RPC("Override", "Req", "Resp", "POST", "/override").H(&spec.Header{Name: "X-API-Key", Type: "integer", Required: true}),
+			).H(apiKey),
+		},
+	}
+	return withCell(spec.One("core_hdr_override", f), "core/unit=hdr_override", "core", "valid")
+}
 
 // CoreSpecs returns the specs mirroring the feature combinations used in sebuf's own documentation
 // and testdata protos.
 func CoreSpecs() []*spec.Spec {
-	return nil
+	return []*spec.Spec{CoreRest(), CoreDefaultRoute(), CoreQuery(), CorePathKinds(), CoreInt64(), CoreEnum(), CoreNullable(), CoreEmpty(),
+		CoreTimestamp(), CoreBytes(), CoreFlatten(), CoreOneof(), CoreUnwrap(), CoreRules(), CoreMulti(), CoreErr(), CoreHeaders(), CoreHdrOverride()}
 }
